@@ -40,7 +40,7 @@ def cases(tier, seed):
     for fam in FAMILIES:
         for D in (1, 2, 3):
             for N in Ns[D]:
-                for rep in range(2 if tier == "quick" else 4):
+                for rep in range(2 if tier == "quick" else 4):       # rep also selects the coefficient relation in run_family (together with N)
                     out.append(dict(kind="family", fam=fam, D=D, N=N, rs=[seed, env.crc(fam), D, N, rep, 1], cost=N ** D / 30 + 1))
     for rep in range(8 if tier == "quick" else 40):
         out.append(dict(kind="formulas", rs=[seed, rep, 2], cost=0.3))
@@ -117,6 +117,8 @@ def run_pair(case, bus, ex):
         C = 1
     elif pair == "fisher":
         r = U(0.5, 2)
+        if N % 2 == 0:
+            nu = r / D          # relation: the zeroth- and second-order linear coefficients of the generic form coincide
         a = R.FisherKPP(D, L, N, dt, diffusivity=nu, reactivity=r, order=order)
         g = Gn.GeneralPolynomialStepper(D, L, N, dt, linear_coefficients=(r / D, 0.0, nu), polynomial_coefficients=(0.0, 0.0, -r), order=order)
         C = 1
@@ -172,6 +174,17 @@ def run_family(case, bus, ex):
     sc = L / (2 * np.pi)
     m = int(rng.integers(2, 5))
     a = [U(-0.3, 0.1), U(-1, 1) * sc, U(0.005, 0.05) * sc ** 2, U(-0.01, 0.01) * sc ** 3, -U(1e-5, 1e-3) * sc ** 4][: m + 1]
+    # relations between coefficients that ordinary draws never produce: two equal non-zero entries, exact (repeated) zeros
+    rel = (case["rs"][4] + N) % 4
+    if rel == 1 and len(a) >= 3:
+        a[0] = a[2]
+    elif rel == 2 and len(a) >= 3:
+        a[1] = a[2]
+        if len(a) >= 5:
+            a[3] = 0.0
+    elif rel == 3:
+        a[1] = 0.0
+        a[0] = 0.0 if len(a) < 4 else a[0]
     order = int(rng.integers(0, 5))
     M = U(0.5, 3.0)
     sflag, cons = bool(rng.integers(0, 2)), bool(rng.integers(0, 2))
@@ -303,6 +316,38 @@ def run_formulas(case, bus, ex):
     nd = (nn[0], b1 * M * N * D, b2 * M * N ** 2 * D)
     j("reduce_normalized_nonlinear_scales_to_difficulty", UT.reduce_normalized_nonlinear_scales_to_difficulty(nn, num_spatial_dims=D, num_points=N, maximum_absolute=M), nd, "formula")
     j("extract_normalized_nonlinear_scales_from_difficulty", UT.extract_normalized_nonlinear_scales_from_difficulty(nd, num_spatial_dims=D, num_points=N, maximum_absolute=M), nn, "inverse")
+
+
+    # history: the conversions are pure - calling them again with the SAME sequence object (a list a caller keeps around to set up several
+    # resolutions) gives the same values and leaves the argument untouched; two steppers built from one shared list describe the same dynamics
+    def again(name, fn, arg, ref):
+        lst = list(arg)
+        keep = list(lst)
+        for call in (1, 2, 3):
+            j(name, fn(lst), ref, f"list argument, call {call}")
+        bus.judge("conversion_formulas", 0.0 if lst == keep else 1.0, 0.5, (name, "argument left untouched"), witness=dict(info, function=name, argument_before=keep, argument_after=lst))
+    again("normalize_coefficients", lambda x: Gn.normalize_coefficients(x, domain_extent=L, dt=dt), co, al)
+    again("denormalize_coefficients", lambda x: Gn.denormalize_coefficients(x, domain_extent=L, dt=dt), al, co)
+    again("reduce_normalized_coefficients_to_difficulty", lambda x: Gn.reduce_normalized_coefficients_to_difficulty(x, num_spatial_dims=D, num_points=N), al, gm)
+    again("extract_normalized_coefficients_from_difficulty", lambda x: Gn.extract_normalized_coefficients_from_difficulty(x, num_spatial_dims=D, num_points=N), gm, al)
+    again("normalize_polynomial_scales", lambda x: Gn.normalize_polynomial_scales(x, dt=dt), co, [c * dt for c in co])
+    again("denormalize_polynomial_scales", lambda x: Gn.denormalize_polynomial_scales(x, dt=dt), [c * dt for c in co], co)
+    again("reduce_normalized_nonlinear_scales_to_difficulty", lambda x: UT.reduce_normalized_nonlinear_scales_to_difficulty(x, num_spatial_dims=D, num_points=N, maximum_absolute=M), nn, nd)
+    again("extract_normalized_nonlinear_scales_from_difficulty", lambda x: UT.extract_normalized_nonlinear_scales_from_difficulty(x, num_spatial_dims=D, num_points=N, maximum_absolute=M), nd, nn)
+    Ds, Ns_ = int(rng.integers(1, 3)), int(rng.integers(8, 14))
+    shared = [U(-0.2, 0.0), U(-1, 1), U(0.5, 4)]
+    shared_before = list(shared)
+    x_ = jnp.asarray(G.random_state(rng, "white", 1, Ds, Ns_, amp=0.4))
+    ref_al = [shared[0]] + [shared[i] / (Ns_ ** i * 2 ** (i - 1) * Ds) for i in (1, 2)]
+    want = np.asarray(Gn.NormalizedLinearStepper(Ds, Ns_, normalized_linear_coefficients=tuple(ref_al))(x_))
+    for build_no in (1, 2):
+        got = np.asarray(Gn.DifficultyLinearStepper(Ds, Ns_, linear_difficulties=shared)(x_))
+        bus.judge("normalized_vs_difficulty", float(np.max(np.abs(got - want))) / float(np.max(np.abs(x_))), TOL, ("shared list", f"build {build_no}"),
+                  witness=dict(info, function="DifficultyLinearStepper built from a list the caller reuses", build=build_no, D=Ds, N=Ns_, difficulties=shared_before, list_after=list(shared)))
+    got = np.asarray(Gn.DifficultyConvectionStepper(Ds, Ns_, linear_difficulties=shared, convection_difficulty=0.0)(x_)) if Ds == 1 else None
+    if got is not None:
+        bus.judge("normalized_vs_difficulty", float(np.max(np.abs(got - want))) / float(np.max(np.abs(x_))), TOL, ("shared list", "build 3, other class"),
+                  witness=dict(info, function="DifficultyConvectionStepper built from the same list", D=Ds, N=Ns_, difficulties=shared_before, list_after=list(shared)))
 
 
 def run_case(case, bus, ex):
